@@ -39,7 +39,7 @@ func checkC15(c *Check) {
 	if len(entries) < 3 {
 		return
 	}
-	runGenEngines(c, genOpts{entries: entries, order: true, guard: true, deref: true, rec: true})
+	runGenEngines(c, genOpts{entries: entries, order: true, guard: true, deref: true, rec: true, modelRO: true})
 	tkinds := oneofKinds(p, "isType_Type")
 	// drawers by role: methods of DataModelView taking a *sysl.Type_Tuple / *sysl.Type_Relation
 	var tupleDrawer, relDrawer, dispatcher *ssa.Function
@@ -224,7 +224,7 @@ func checkC16(c *Check) {
 		c.Undecidedf("ANCHOR", "database entries", "-", "ScriptView.GenerateDatabaseScriptCreate / ProcessModSysls and the exported depth computation they call not found")
 		return
 	}
-	runGenEngines(c, genOpts{entries: entries, order: true, guard: true, deref: true, rec: true})
+	runGenEngines(c, genOpts{entries: entries, order: true, guard: true, deref: true, rec: true, modelRO: true})
 	c16DepthIsMax(c)
 	c16RecordOnAllPaths(c)
 	// each script is the content of a buffer held in the view: it must be empty
@@ -293,7 +293,7 @@ func checkC17(c *Check) {
 	if len(entries) < 1 {
 		return
 	}
-	runGenEngines(c, genOpts{entries: entries, order: true, guard: true, deref: true, rec: true})
+	runGenEngines(c, genOpts{entries: entries, order: true, guard: true, deref: true, rec: true, modelRO: true})
 	// the command that hands the relational model to the script: a refusal by
 	// Normalize must reach the user, not be overwritten
 	cmdFns := map[*ssa.Function]bool{}
